@@ -1,5 +1,6 @@
 import RpmVerif.Props.C05
 import RpmVerif.Model.PgpFraming
+import RpmVerif.Lemmas.PgpParse
 /-!
 # C04 — untrusted bytes never crash the reader
 
@@ -281,36 +282,15 @@ blob, so no declared length exceeds the blob — for EVERY blob. -/
 section pgp
 open RpmVerif.Pgp
 
-theorem splitAux_flatten (fuel : Nat) (blob : Bytes) (ps : List Bytes) (h : splitAux fuel blob = some ps) :
-    ps.flatten = blob := by
-  induction fuel generalizing blob ps with
-  | zero => simp [splitAux] at h
-  | succ fuel ih =>
-    cases blob with
-    | nil => simp [splitAux] at h; subst h; rfl
-    | cons t r =>
-      simp only [splitAux] at h
-      split at h
-      · cases h
-      · rename_i hh b hl
-        split at h
-        · simp only [Option.map_eq_some_iff] at h
-          obtain ⟨rest, hr, rfl⟩ := h
-          rw [List.flatten_cons, ih _ _ hr, List.take_append_drop]
-        · cases h
-
 /-- **the packets are a partition of the blob** -/
 theorem split_partition (blob : Bytes) (ps : List Bytes) (h : splitPackets blob = some ps) : ps.flatten = blob :=
   splitAux_flatten _ _ _ h
 
-theorem le_sum_of_mem_nat {l : List Nat} {n : Nat} (h : n ∈ l) : n ≤ l.sum := by
-  induction l with
-  | nil => cases h
-  | cons a l ih =>
-    rw [List.sum_cons]
-    rcases List.mem_cons.mp h with rfl | h'
-    · omega
-    · have := ih h'; omega
+/-- **each packet's own header declares exactly the packet's length**: the length the parser will allocate for a packet
+is the number of bytes the packet really has -/
+theorem split_declared (blob : Bytes) (ps : List Bytes) (h : splitPackets blob = some ps) :
+    ∀ p ∈ ps, ∃ hl bl, packetLens p = some (hl, bl) ∧ hl + bl = p.length :=
+  splitAux_declared _ _ _ h
 
 /-- **no packet handed to the parser is longer than the blob, and together they are exactly the blob** -/
 theorem split_bounded (blob : Bytes) (ps : List Bytes) (h : splitPackets blob = some ps) :
@@ -341,6 +321,91 @@ theorem split_witness :
       ∧ splitPackets [0x96, 0x06, 0x32, 0xf2, 0xaf] = none
       ∧ splitPackets [0x88, 2, 1, 2, 0xc2, 1, 9] = some [[0x88, 2, 1, 2], [0xc2, 1, 9]] := by
   decide
+
+/-! #### `Verifier::parse_signature`: what the `pgp` crate's parser is handed, for ANY parser and ANY blob
+
+`parserCalls P blob` are the arguments of the `find_map` closure of `parse_signature`, in call order (`P` = the `pgp`
+crate's packet parser, a parameter). The parser allocates the length a packet header DECLARES before it reads the body;
+these theorems bound that length by the blob, whatever the blob and whatever the parser does. -/
+
+/-- the parser is called on a prefix of the packet list (`find_map` stops at the first signature) -/
+theorem parser_calls_prefix {σ : Type} (P : Bytes → Option σ) (blob : Bytes) (ps : List Bytes)
+    (h : splitPackets blob = some ps) : parserCalls P blob <+: ps := by
+  unfold parserCalls; rw [h]; exact consulted_prefix P ps
+
+/-- **every argument of the OpenPGP parser is a non-empty contiguous slice of the blob, no longer than the blob, whose
+own header declares exactly the slice's length** -/
+theorem parser_sees_only_slices {σ : Type} (P : Bytes → Option σ) (blob : Bytes) :
+    ∀ p ∈ parserCalls P blob,
+      (∃ pre post, blob = pre ++ p ++ post) ∧ 1 ≤ p.length ∧ p.length ≤ blob.length
+        ∧ ∃ hl bl, packetLens p = some (hl, bl) ∧ hl + bl = p.length := by
+  intro p hp
+  cases hs : splitPackets blob with
+  | none => simp [parserCalls, hs] at hp
+  | some ps =>
+    have hmem : p ∈ ps := (parser_calls_prefix P blob ps hs).subset hp
+    have hflat := split_partition blob ps hs
+    obtain ⟨hl, bl, hd, hlen⟩ := splitAux_declared _ _ _ hs p hmem
+    obtain ⟨pre, post, hpp⟩ := mem_flatten_slice hmem
+    refine ⟨⟨pre, post, by rw [← hflat, hpp]⟩, ?_, (split_bounded blob ps hs).1 p hmem, hl, bl, hd, hlen⟩
+    have := packetLens_hpos hd
+    omega
+
+/-- **allocation bound** (corollary): whatever length a packet handed to the parser declares — header and body — lies
+inside the blob, and all the bytes handed to the parser during one `parse_signature` call together are at most the blob -/
+theorem parser_alloc_bound {σ : Type} (P : Bytes → Option σ) (blob : Bytes) :
+    (∀ p ∈ parserCalls P blob, ∀ hl bl, packetLens p = some (hl, bl) → hl + bl ≤ blob.length)
+      ∧ ((parserCalls P blob).map List.length).sum ≤ blob.length := by
+  constructor
+  · intro p hp hl bl hd
+    obtain ⟨_, _, hle, hl', bl', hd', hlen⟩ := parser_sees_only_slices P blob p hp
+    rw [hd] at hd'
+    simp only [Option.some.injEq, Prod.mk.injEq] at hd'
+    omega
+  · cases hs : splitPackets blob with
+    | none => simp [parserCalls, hs]
+    | some ps =>
+      obtain ⟨rest, hr⟩ := parser_calls_prefix P blob ps hs
+      have := (split_bounded blob ps hs).2
+      rw [← hr, List.map_append, List.sum_append] at this
+      omega
+
+/-- `parserCalls` is exactly the call sequence of a left-to-right `find_map`: the result is the parser's answer on the
+LAST call, and every earlier call answered `None` -/
+theorem parser_calls_faithful {σ : Type} (P : Bytes → Option σ) (blob : Bytes) :
+    Pgp.parseSignature P blob = (parserCalls P blob).getLast?.bind P
+      ∧ ∀ p ∈ (parserCalls P blob).dropLast, P p = none := by
+  unfold Pgp.parseSignature parserCalls
+  cases splitPackets blob with
+  | none => exact ⟨rfl, fun p hp => by cases hp⟩
+  | some ps => exact consulted_faithful P ps
+
+/-- broken framing: the parser is not called at all -/
+theorem parser_not_called_on_broken_framing {σ : Type} (P : Bytes → Option σ) (blob : Bytes)
+    (h : splitPackets blob = none) : parserCalls P blob = [] ∧ Pgp.parseSignature P blob = none := by
+  simp [parserCalls, Pgp.parseSignature, h]
+
+/-- **the result depends on the parser only through its answers on slices of the blob**: two parsers that agree on
+every packet-shaped slice of the blob give the same `parse_signature` result -/
+theorem parse_depends_on_slices {σ : Type} (P Q : Bytes → Option σ) (blob : Bytes)
+    (h : ∀ p, (∃ pre post, blob = pre ++ p ++ post) → p.length ≤ blob.length → P p = Q p) :
+    Pgp.parseSignature P blob = Pgp.parseSignature Q blob := by
+  unfold Pgp.parseSignature
+  cases hs : splitPackets blob with
+  | none => rfl
+  | some ps =>
+    refine findSome_congr (fun p hp => h p ?_ ((split_bounded blob ps hs).1 p hp))
+    obtain ⟨pre, post, hpp⟩ := mem_flatten_slice hp
+    exact ⟨pre, post, by rw [← split_partition blob ps hs, hpp]⟩
+
+/-- non-vacuity: a toy parser (a "signature" is an old-format tag-2 packet; its value is the body) on
+`[user-id packet][signature 7][signature 9]`: called on the first two packets only -/
+example : parserCalls (fun p => match p with | 0x88 :: _ :: body => some body | _ => none)
+      [0xb4, 1, 0x61, 0x88, 1, 7, 0x88, 1, 9] = [[0xb4, 1, 0x61], [0x88, 1, 7]]
+    ∧ Pgp.parseSignature (fun p => match p with | 0x88 :: _ :: body => some body | _ => none)
+      [0xb4, 1, 0x61, 0x88, 1, 7, 0x88, 1, 9] = some [7] := by decide
+/-- … and a declared length beyond the blob never reaches the parser -/
+example : parserCalls (fun p => some p) [0xe6, 0x3b, 0x96, 0x06, 0x32, 0xf2, 0xaf] = [] := by decide
 
 end pgp
 
